@@ -89,6 +89,14 @@ def replay_file(path):
     print('replay file carries no concrete input (no-failing-input-found); failed obligations:')
     for o in d.get('obligations', []):
         print(' -', o['id'], ':', o['detail'][:300])
-        for t in (o.get('verifier_output') or [])[:3]:
-            print(t if isinstance(t, str) else json.dumps(t))
+        vo = o.get('verifier_output')
+        if isinstance(vo, str):
+            print('   ' + vo.strip().replace('\n', '\n   ')[:1500])
+        else:
+            for t in (vo or [])[:3]:
+                print('   ' + (t if isinstance(t, str) else json.dumps(t))[:600])
+        w = o.get('witness')
+        if w and w.get('scenario'):
+            r = replay_witness({'scenario': w['scenario'], 'input': w.get('input')})
+            print('   replayed witness:', json.dumps(r)[:600])
     return 1
